@@ -6,3 +6,10 @@ package overlaydb
 //@ func (*OverlayDB).Error
 //@   trusted   -- returns the sticky error field
 //@   modifies nothing
+
+//@ func (*MemDB).Get
+//@   trusted   -- skip-list lookup (C09): reads only
+//@   modifies nothing
+//@ func (*OverlayDB).Get
+//@   trusted   -- memdb lookup, then the persisted store: reads only (sets the sticky error field on failure)
+//@   modifies self.dbErr
